@@ -153,7 +153,9 @@ SeedsFeatSeg == {
    << <<KPaint,0,3,1,2>>, <<KPaint,1,1,2,2>>, <<KDisable,16,0,0,0>>, <<KPaint,1,2,2,2>>, <<KEnable,16,0,0,0>> >> }
 SeedsFeatNs == {
    << <<KAddNode,1,0,1,0>>, <<KAddNode,2,1,1,0>>, <<KDisable,8,0,0,0>>,  <<KDelEdge,1,2,0,0>>, <<KEnable,8,0,0,0>> >>,
-   << <<KAddNode,1,0,1,0>>, <<KAddNode,2,1,1,0>>, <<KDisable,40,0,0,0>>, <<KDelEdge,1,2,0,0>>, <<KEnable,40,0,0,0>> >> }
+   << <<KAddNode,1,0,1,0>>, <<KAddNode,2,1,1,0>>, <<KDisable,40,0,0,0>>, <<KDelEdge,1,2,0,0>>, <<KEnable,40,0,0,0>> >>,
+   \* lineage ids switched off, an edit that splits a component, then track ids switched off as well
+   << <<KAddNode,1,0,1,0>>, <<KAddNode,2,1,1,0>>, <<KDisable,8,0,0,0>>,  <<KDelEdge,1,2,0,0>>, <<KDisable,32,0,0,0>> >> }
 RECURSIVE RunPath(_, _)
 RunPath(s, p) == IF p = <<>> THEN s ELSE RunPath(Trim(StepOrd(s, Head(p), 1).s), Tail(p))
 
